@@ -2,7 +2,7 @@
    Spec level: [json_of] / [t2j_spec] of model/T2J.v on the decoded AST of ThriftWire.v (decoder proved in C19).
    The implementation is tied to the spec by Check03 (every output is parsed by the proved parser and compared). *)
 From Coq Require Import ZArith List Bool Lia.
-From DG Require Import ProtoWireRef ThriftWire Json Num Base64 T2J JsonProofs NumProofs Base64Proofs T2JProofs.
+From DG Require Import ProtoWireRef ThriftWire Json Num Base64 T2J JsonProofs JsonSound NumProofs Base64Proofs T2JProofs.
 Import ListNotations.
 Local Open Scope Z_scope.
 
@@ -15,6 +15,11 @@ Theorem C03_json_parse_prefix_print : forall j r, json_wf j = true -> stop r = t
   json_parse_prefix (json_print j ++ r) = Some (j, r).
 Proof. exact json_parse_prefix_print. Qed.
 Print Assumptions C03_json_parse_prefix_print.
+
+(* whatever the parser accepts is a well-formed AST, and its canonical text parses to the same AST (print o parse normalises) *)
+Theorem C03_json_parse_wf : forall bs j, json_parse bs = Some j -> json_wf j = true /\ json_parse (json_print j) = Some j.
+Proof. intros bs j H. split; [exact (json_parse_wf bs j H) | exact (json_parse_canonical bs j H)]. Qed.
+Print Assumptions C03_json_parse_wf.
 
 (* strings: every byte string is recovered from its quoted form (all lengths, all lane positions at once) *)
 Theorem C03_unquote_quote_ref : forall s, jbytes_okb s = true -> unquote (quote_ref s) = Some s.
@@ -110,7 +115,7 @@ Example C03_example :
   (* DisallowUnknownField (bit 3): error *)
   fst (t2j_spec 8 ex_desc ex_val) = TErr E_UNKNOWN /\
   (* the exact decimal of a double is read back to its bits *)
-  lex2f64 (f64_exact_lexeme 4609434218613702656) = Some 4609434218613702656 /\
+  lex2f64 (f64_exact_lexeme 4609434218613702656) = Some 4609434218613702656 /\ lex_is_f64 (f64_exact_lexeme 4609434218613702656) 4609434218613702656 = true /\
   lex2f64 (f64_exact_lexeme 4532020583610935537) = Some 4532020583610935537 /\ lex2f64 (f64_exact_lexeme (2 ^ 63 + 9218868437227405311)) = Some (2 ^ 63 + 9218868437227405311).
 Proof. vm_compute. repeat split; reflexivity. Qed.
 
